@@ -685,6 +685,16 @@ def extra_c18(P, ctx):
                                lemmas=["0 <= t - ToTime(ToNtp(t)) <= 1 for all t in NTP era 0", "0 <= d - FromQ(ToQ(d)) <= 1 for all |d| < 2^31 s"])
     except Exception as e:  # advisory leg
         cov["apalache"]["outcome"] = "error: %r" % (e,)
+    # the same two lemmas as a TLAPS proof (the capture-time lemma reduced to the offset lemma by the epoch shift)
+    cov["tlaps"] = {"outcome": "not run"}
+    try:
+        import re
+        shutil.copy(os.path.join(ctx["sdir"], "NtpTimeProof.tla"), d)
+        r = subprocess.run(["tlapm", "--threads", "8", "NtpTimeProof.tla"], cwd=d, capture_output=True, text=True, timeout=300)
+        m = re.search(r"All (\d+) obligations? proved", r.stdout + r.stderr)
+        cov["tlaps"] = {"outcome": "all obligations proved" if m else "not proved", "obligations": int(m.group(1)) if m else 0, "cmd": "tlapm --threads 8 NtpTimeProof.tla"}
+    except Exception as e:  # advisory leg
+        cov["tlaps"]["outcome"] = "error: %r" % (e,)
     # binding: transcription == code on every sampled capture instant
     def to_ntp(ns):
         return ((ns // 10**9) + 2208988800) * 2**32 + ((ns % 10**9) * 2**32) // 10**9
@@ -751,6 +761,17 @@ def extra_c07(P, ctx):
                                        "IndInv => the h-th number is (start + h - 1) mod 2^16 and roc * 2^16 + sn = s0 + h"])
     except Exception as e:  # advisory leg
         cov["apalache"]["outcome"] = "error: %r" % (e,)
+    # the same invariant as a TLAPS proof (no bound of any kind): Init => IndInv, IndInv /\ [Next]_vars => IndInv', Spec => []IndInv
+    cov["tlaps"] = {"outcome": "not run"}
+    try:
+        shutil.copy(os.path.join(ctx["sdir"], "SeqIndProof.tla"), d)
+        r = subprocess.run(["tlapm", "--threads", "8", "SeqIndProof.tla"], cwd=d, capture_output=True, text=True, timeout=300)
+        import re
+        m = re.search(r"All (\d+) obligations? proved", r.stdout + r.stderr)
+        cov["tlaps"] = {"outcome": "all obligations proved" if m else "not proved", "obligations": int(m.group(1)) if m else 0,
+                        "cmd": "tlapm --threads 8 SeqIndProof.tla", "theorem": "Spec => []IndInv with IndInv: roc * 2^16 + sn = s0 + h (unbounded number of draws)"}
+    except Exception as e:  # advisory leg
+        cov["tlaps"]["outcome"] = "error: %r" % (e,)
     pts = mism = 0
     tp = os.path.join(ctx["work"], "trace-main.ndjson")
     if os.path.exists(tp):
